@@ -112,11 +112,11 @@ static struct fdinfo g_fds[MAXFD];
 
 enum kind {
   K_OPENR, K_OPENW, K_OPENDIR, K_READ, K_WRITE, K_READDIR, K_SHORT_READ, K_SHORT_WRITE,
-  K_EINTR_READ, K_EINTR_WRITE, K_EINTR_OPEN, K_CLOCKJUMP, K_CRASH, K_RENAME, K_STATSIZE, K_TTY, K_DEVNO, K_FLOCK, K_SIGNAL, K_GETCWD, K_THREAD, K_EAGAIN_READ, K_NKINDS
+  K_EINTR_READ, K_EINTR_WRITE, K_EINTR_OPEN, K_CLOCKJUMP, K_CRASH, K_RENAME, K_STATSIZE, K_TTY, K_DEVNO, K_FLOCK, K_SIGNAL, K_GETCWD, K_THREAD, K_EAGAIN_READ, K_STAT, K_TREAD, K_NKINDS
 };
 static const char *kind_names[] = {"openr", "openw", "opendir", "read", "write", "readdir",
                                    "short_read", "short_write", "eintr_read", "eintr_write",
-                                   "eintr_open", "clockjump", "crash", "rename", "statsize", "tty", "devno", "flock", "signal", "getcwd", "thread", "eagain_read"};
+                                   "eintr_open", "clockjump", "crash", "rename", "statsize", "tty", "devno", "flock", "signal", "getcwd", "thread", "eagain_read", "stat", "tread"};
 struct rule {
   int kind;
   char sel[RELMAX];
@@ -158,7 +158,7 @@ static const struct errname errnames[] = {
   {"ENOSPC", ENOSPC}, {"EPIPE", EPIPE}, {"EINTR", EINTR}, {"EISDIR", EISDIR}, {"ENOTDIR", ENOTDIR},
   {"EPERM", EPERM}, {"EDQUOT", EDQUOT}, {"EFBIG", EFBIG}, {"ENFILE", ENFILE}, {"ENOMEM", ENOMEM},
   {"EBADF", EBADF}, {"ELOOP", ELOOP}, {"ENAMETOOLONG", ENAMETOOLONG}, {"EAGAIN", EAGAIN},
-  {"ETXTBSY", ETXTBSY}, {"EBUSY", EBUSY}, {"EXDEV", EXDEV}, {"EWOULDBLOCK", EWOULDBLOCK}, {"ENOLCK", ENOLCK}, {"ESTALE", ESTALE}, {0, 0}};
+  {"ETXTBSY", ETXTBSY}, {"EBUSY", EBUSY}, {"EXDEV", EXDEV}, {"EWOULDBLOCK", EWOULDBLOCK}, {"ENOLCK", ENOLCK}, {"ESTALE", ESTALE}, {"ETIMEDOUT", ETIMEDOUT}, {0, 0}};
 static int errno_from_name(const char *s) {
   for (int i = 0; errnames[i].n; i++) if (!strcmp(errnames[i].n, s)) return errnames[i].v;
   return atoi(s);
@@ -517,6 +517,18 @@ static size_t transfer_gate(int fd, size_t len, int is_write, int *err, int *rul
   }
   int ri = nth_rule(is_write ? K_EINTR_WRITE : K_EINTR_READ, f->rel);
   if (ri >= 0) { *err = EINTR; *rule = ri; return 0; }
+  /* `tread:<path>:+k:<errno>`: a *transient* read error - once, at the first read at or after
+   * byte k of a matching file (the bytes before k are delivered first), a read fails with
+   * ETIMEDOUT / EAGAIN / EIO; every later read works (a flaky network mount). A tool may report
+   * the file as unreadable or try again; what it must not do is go on with a mixture. */
+  if (!is_write) {
+    for (int i = 0; i < g_nrules; i++) {
+      struct rule *r = &g_rules[i];
+      if (r->kind != K_TREAD || r->fired || !sel_match(r, f->rel)) continue;
+      if (f->off >= r->when) { r->fired = 1; *err = (int)r->arg; *rule = i; return 0; }
+      if (f->off + (long)len > r->when) { len = (size_t)(r->when - f->off); *rule = i; }
+    }
+  }
   /* hard errors */
   for (int i = 0; i < g_nrules; i++) {
     struct rule *r = &g_rules[i];
@@ -783,7 +795,41 @@ static int (*real_statx)(int, const char *, int, unsigned int, struct statx *);
 int statx(int dirfd, const char *path, int flags, unsigned int mask, struct statx *buf) {
   vsim_init();
   if (!real_statx) real_statx = dlsym(RTLD_NEXT, "statx");
+  /* `stat:<path>:1:<errno>`: every stat/lstat of the path fails (a directory the user may list
+   * but not search, a stale handle). Issued together with an `openr` rule on the same path: the
+   * file cannot be looked at in any way. A descriptor that is already open is not affected. */
+  if (g_world && path && path[0]) {
+    char srel[RELMAX];
+    if (world_rel(dirfd, path, srel)) {
+      pthread_mutex_lock(&g_lock);
+      for (int i = 0; i < g_nrules; i++) {
+        struct rule *ru = &g_rules[i];
+        if (ru->kind != K_STAT || !sel_match(ru, srel)) continue;
+        event_begin("stat", srel);
+        ru->fired = 1;
+        trace_line("stat", srel, flags, -1, (int)ru->arg, i);
+        pthread_mutex_unlock(&g_lock);
+        errno = (int)ru->arg;
+        return -1;
+      }
+      pthread_mutex_unlock(&g_lock);
+    }
+  }
   int r = real_statx ? real_statx(dirfd, path, flags, mask, buf) : (int)real_syscall(SYS_statx, dirfd, path, flags, mask, buf);
+  if (r != 0 && g_world && path && path[0]) {
+    /* a failed look at an in-world path is an event too (a tool that stats before it opens and
+     * gives up on ENOENT has talked to the simulator all the same) */
+    int e0 = errno;
+    char frel[RELMAX];
+    if (world_rel(dirfd, path, frel)) {
+      pthread_mutex_lock(&g_lock);
+      event_begin("stat", frel);
+      trace_line("stat", frel, flags, -1, e0, -1);
+      pthread_mutex_unlock(&g_lock);
+    }
+    errno = e0;
+    return r;
+  }
   if (r != 0 || !g_world || !buf) return r;
   int e = errno;
   char rel[RELMAX];
